@@ -20,7 +20,8 @@ RULE = ('exhaustive: all 4096 subsets of the 12 value modifiers x {dtml-var '
         'modifier; null= / missing=; the stage product fmt= (every special '
         'format, method and %-formats) x C-style format (EPFS s / 40s / .60s '
         '/ r, or none) x modifier subsets (size <= 3 in quick, all 4096 in '
-        'thorough) x size.  Non-trivial: the option set contains at '
+        'thorough) x size; every ordered pair and triple of modifiers (the '
+        'written order).  Non-trivial: the option set contains at '
         'least one modifier / format that rewrites the string (anything but '
         'plain insertion).  Cases are distinct by construction.')
 ASSUMPTIONS = [
@@ -201,6 +202,8 @@ def plan(tier, seed):
     shards.append(dict(kind='formats', part=1))
     shards.append(dict(kind='size'))
     shards.append(dict(kind='once'))
+    for m in MODS:
+        shards.append(dict(kind='orders', first=m))
     for f in PIPE_FMTS:
         shards.append(dict(kind='pipeline', fmt=f,
                            rmax=3 if tier == 'quick' else 12))
@@ -251,6 +254,19 @@ def run_shard(shard):
                     check(acc, 'epfs:' + cf, ['size=7'], v)
                     check(acc, 'epfs:' + cf, ['fmt=upper'], v)
                     check(acc, 'epfs:' + cf, ['fmt=url-unquote'], v)
+    elif kind == 'orders':
+        # the order in which the options are written must not matter:
+        # every ordered pair and triple of modifiers, entity form included
+        first = shard['first']
+        rest = [m for m in MODS if m != first]
+        seqs = [(first, b) for b in rest] + \
+            [(first, b, c) for b in rest for c in rest if b != c]
+        for mods in seqs:
+            for form in ('name', 'epfs', 'entity'):
+                if form == 'entity' and len(mods) == 3:
+                    continue
+                for v in three:
+                    check(acc, form, list(mods), v)
     elif kind == 'pipeline':
         f = shard['fmt']
         base = ['fmt=%s' % f] if f else []
